@@ -1,4 +1,5 @@
 SPECIFICATION Spec
 CONSTANTS NC = 2 NI = 1 Delays = {1} PassTimeouts = {} Filters = {"all"}
           Nesting = FALSE ReAdds = 1 ExtFut = FALSE ReapOwnOnly = FALSE LateCancel = TRUE
+          HScripts = {} CoHandlers = FALSE ClaimFirst = TRUE
 INVARIANT NoTimeoutAfterClaim
